@@ -151,6 +151,8 @@ class Verifier(object):
                     self._run_path(m, path, c, module, node, qualname, case, rep)
 
                 paths = explore(run, shard=shard)
+                if shard is not None and shard[0] == "frontier":
+                    rep.pending = list(explore.pending)
                 rep.paths += len(paths)
                 for p in paths:
                     rep.obligations.extend(p.obligations)
